@@ -42,6 +42,18 @@ def MC_RUNS(quick):
     return [r for r in runs if os.path.exists(os.path.join(core.TLA, "model", r[1] + ".cfg"))]
 
 
+# curve identifiers ep_param_set accepts on the unchanged tree (include/relic_ep.h: NIST_P256, BSI_P256, SECG_K256,
+# SM2_P256, BN_P256, SM9_P256; B12_P381): a curve of this list that can no longer be selected is a VIOLATION (the
+# driver reports BADCURVE, which the spec never accepts), not a discovery result.
+EXPECTED = {"std256": [12, 13, 14, 15, 23, 24], "ep-basic": [12, 13, 14, 15, 23, 24],
+            "ep-jacob": [12, 13, 14, 15, 23, 24], "b12-381": [30]}
+
+
+def missing_cases(cfg, curves):
+    have = set(c.spec for c in curves)
+    return ["ep_is_infty id%d 0 inf" % i for i in EXPECTED.get(cfg, []) if "id%d" % i not in have]
+
+
 def discover(cfg, wd, bdir=None, name="ep"):
     """Which curve identifiers does ep_param_set accept in this build? (input discovery)"""
     exe = core.cc_harness(cfg, name, DRV, bdir=bdir)
@@ -133,6 +145,8 @@ def tiny(worlds, rng, quick):
             pp = [(P, Q) for P in pts for Q in pts]
             g += gen_ep.group_cases_xy(cv, rng, pp if not quick else rng.sample(pp, 300), ops=("ep_add",))
             g += gen_ep.group_cases_xy(cv, rng, rng.sample(pp, 300 if quick else 8000))
+            g += gen_ep.unary_cases_xy(cv, rng, cv.points if not quick else rng.sample(cv.points, 60) +
+                                       [P for P in cv.points if P[1] == 0])
         rng.shuffle(g)
         grp += g
         # ---- every k in [-2n, 3n] and 2^j, 2^j +- 1 x every routine, on G and on other points
@@ -221,14 +235,12 @@ def run(tier, seed):
 
     # ---- B2: the pinned 256-bit build, every selectable curve
     curves = discover("std256", wd)
-    if len(curves) < 4:
-        raise core.InfraError("curve discovery found only %s" % [c.spec for c in curves])
     cover["std256"] = [c.spec for c in curves]
     grp, mul = full_width(curves, rng, quick)
-    part("std256-grp", "std256", grp)
+    part("std256-grp", "std256", missing_cases("std256", curves) + grp)
     part("std256-mul", "std256", mul, heavy=True)
     # ---- B1: tiny worlds, 8-bit field, near-exhaustive
-    worlds = gen_ep.tiny_worlds()
+    worlds = gen_ep.tiny_worlds(even=True)
     if len(worlds) < 3:
         raise core.InfraError("tiny world construction failed")
     cover["w8p8"] = [w.name for w in worlds]
@@ -249,10 +261,10 @@ def run(tier, seed):
             cs = discover(cfg, wd)
             cover[cfg] = [c.spec for c in cs]
             grp, mul = full_width(cs, rng, True, mul_scale=1.5)
-            part(cfg + "-grp", cfg, grp)
+            part(cfg + "-grp", cfg, missing_cases(cfg, cs) + grp)
             part(cfg + "-mul", cfg, mul, heavy=True)
             bdir = core.build_relic("w8p8", extra_args=[EP_METHD[sysname]], tag="w8p8-" + sysname)
-            ws = gen_ep.tiny_worlds(sys=sysid)
+            ws = gen_ep.tiny_worlds(sys=sysid, even=True)
             parts = tiny(ws, rng, True)
             part("w8p8-%s-grp" % sysname, "w8p8", sum((g for _, g, _ in parts), []), bdir=bdir)
             part("w8p8-%s-mul" % sysname, "w8p8", sum((m for _, _, m in parts), []), bdir=bdir)
@@ -260,7 +272,7 @@ def run(tier, seed):
         cs = discover("b12-381", wd)
         cover["b12-381"] = [c.spec for c in cs]
         grp, mul = full_width(cs, rng, True, mul_scale=2.0)
-        part("b12-381-grp", "b12-381", grp)
+        part("b12-381-grp", "b12-381", missing_cases("b12-381", cs) + grp)
         part("b12-381-mul", "b12-381", mul, heavy=True)
     ev.cov["curves"] = cover
     return conf.finish()
